@@ -12,6 +12,8 @@
 import Cctz.Model.Tz
 import Cctz.Spec.TableSem
 import Cctz.Proofs.TableLookup
+import Cctz.Proofs.TlShift
+import Cctz.Proofs.TlFixed
 
 namespace Cctz.C01
 open Cctz Cctz.Tz Cctz.Spec
@@ -51,5 +53,73 @@ def fixed_table_statement : Prop :=
   ∀ off : Int, -86400 ≤ off → off ≤ 86400 →
     TableWF (resetToBuiltinUTC off).val ∧ CivilCols (resetToBuiltinUTC off).val ∧
     (resetToBuiltinUTC off).val.extended = false
+
+/-! ## proofs -/
+
+theorem breakTime_table : breakTime_table_statement := by
+  intro z h t wf cc hc
+  show Tl.LookupAt z t (breakTime z h t).val.1
+  rw [Tl.breakTime_noshift z h t hc]
+  exact Tl.breakTimeCore_spec z wf cc h t
+
+theorem breakTime_shift : breakTime_shift_statement := by
+  intro z h t wf cc hext hlast
+  have hn := wf.nonempty
+  have hfirst : ¬ t < timeOf z 0 := by
+    by_cases e : z.transitions.size - 1 = 0
+    · rw [e] at hlast; omega
+    · have := wf.timeSorted 0 (z.transitions.size - 1) (by omega) (by omega)
+      unfold timeOf at *; omega
+  have hts : Tl.TakesShift z t := ⟨hfirst, hlast, hext⟩
+  have hd : cdiv (t - timeOf z (z.transitions.size - 1)) Gen.kSecsPer400Years + 1 =
+      (t - timeOf z (z.transitions.size - 1)) / 12622780800 + 1 := by
+    show cdiv _ 12622780800 + 1 = _
+    rw [cdiv_pos_lit _ _ (by decide), if_pos (by omega)]
+  have hv := Tl.breakTime_val z h t
+  rw [if_pos hts] at hv
+  simp only [hd] at hv
+  show _ ∧ _ ∧ Valid (breakTime z h t).val.1.cs ∧ secNum (breakTime z h t).val.1.cs = _ ∧
+    (breakTime z h t).val.1.offset = _ ∧ (breakTime z h t).val.1.isDst = _ ∧
+    (breakTime z h t).val.1.abbr = _
+  rw [hv]
+  have hk : Gen.kSecsPer400Years = 12622780800 := rfl
+  rw [hk]
+  obtain ⟨v, sn, o, dst, ab⟩ := Tl.breakTimeCore_spec z wf cc h
+    (t - ((t - timeOf z (z.transitions.size - 1)) / 12622780800 + 1) * 12622780800)
+  obtain ⟨v', sn'⟩ := Tl.yearShift_spec _ v ((t - timeOf z (z.transitions.size - 1)) / 12622780800 + 1)
+  refine ⟨by omega, by omega, v', ?_, o, dst, ab⟩
+  show secNum (yearShift _ _).val = _
+  rw [sn', sn]; omega
+
+theorem fixed_table : fixed_table_statement := by
+  intro off _ _
+  rw [Tl.reset_val]
+  exact ⟨Tl.fixed_wf off, Tl.fixed_cols off, rfl⟩
+
+theorem fixed_lookup : fixed_lookup_statement := by
+  intro off h t _ _
+  show Valid (breakTime (resetToBuiltinUTC off).val h t).val.1.cs ∧ _
+  rw [Tl.reset_val]
+  obtain ⟨v, sn, o, dst, ab⟩ :=
+    breakTime_table (Tl.fixedZone off) h t (Tl.fixed_wf off) (Tl.fixed_cols off) (Or.inl rfl)
+  have ho : offAt (Tl.fixedZone off) t = off := by
+    unfold offAt; rw [Tl.fixed_typeAt]; rfl
+  rw [Tl.fixed_typeAt] at dst ab
+  rw [ho] at sn o
+  exact ⟨v, sn, o, dst, by rw [ab, Tl.fixed_abbr]⟩
+
+/-- the hypotheses of the table theorems are satisfiable on a non-trivial table: the built-in
+UTC+1 table (12 entries) and an instant inside it -/
+example : TableWF (resetToBuiltinUTC 3600).val ∧ CivilCols (resetToBuiltinUTC 3600).val ∧
+    (resetToBuiltinUTC 3600).val.extended = false := fixed_table 3600 (by decide) (by decide)
+
+/-- … and the shift theorem's on a two-entry extended table -/
+example : ∃ z : Zone, TableWF z ∧ CivilCols z ∧ z.extended = true ∧
+    timeOf z (z.transitions.size - 1) ≤ 20000000000 := by
+  refine ⟨{ (resetToBuiltinUTC 3600).val with extended := true }, ?_, ?_, rfl, by decide +kernel⟩
+  · obtain ⟨⟨a, b, c, d⟩, _, _⟩ := fixed_table 3600 (by decide) (by decide)
+    exact ⟨a, b, c, d⟩
+  · obtain ⟨_, ⟨a, b, c, d⟩, _⟩ := fixed_table 3600 (by decide) (by decide)
+    exact ⟨a, b, c, d⟩
 
 end Cctz.C01
